@@ -48,6 +48,36 @@ func translatePath(path string) (string, fileType) {
 	}
 }
 
+// openNoWait opens a file or a directory. Named pipes, devices and sockets are refused: they are not served, and
+// opening a named pipe blocks until somebody opens its other end, which nobody does - connection (and its place among
+// allowed clients) would be stuck for ever.
+func openNoWait(fsys afero.Fs, path string, flags int, perm fs.FileMode) (afero.File, fs.FileInfo, error) {
+	f, err := fsys.OpenFile(path, flags|syscall.O_NONBLOCK, perm)
+	if errors.Is(err, syscall.EAGAIN) {
+		// O_NONBLOCK also means not to wait until holder of a lease (samba, nfs server) gives it up.
+		// For files and directories that is worth waiting, as a plain open does.
+		if stat, statErr := fsys.Stat(path); statErr == nil && (stat.Mode().IsRegular() || stat.IsDir()) {
+			f, err = fsys.OpenFile(path, flags, perm)
+		}
+	}
+	if err != nil {
+		return nil, nil, err
+	}
+
+	stat, err := f.Stat()
+	if err != nil {
+		_ = f.Close()
+		return nil, nil, err
+	}
+
+	if !stat.Mode().IsRegular() && !stat.IsDir() {
+		_ = f.Close()
+		return nil, nil, &fs.PathError{Op: "open", Path: path, Err: syscall.EINVAL}
+	}
+
+	return f, stat, nil
+}
+
 func (fsys *FS) Open(path string) (afero.File, error) {
 	return fsys.OpenFile(path, os.O_RDONLY, 0)
 }
@@ -64,23 +94,9 @@ func (fsys *FS) OpenFile(path string, flags int, perm fs.FileMode) (afero.File, 
 		return NewVirtualISO(fsys.Fs, path, typ == virtualPS3ISOFile)
 	}
 
-	// O_NONBLOCK: opening a named pipe blocks until somebody opens its other end, which nobody does - connection
-	// (and its place among allowed clients) would be stuck for ever. It means nothing for files and directories.
-	f, err := fsys.Fs.OpenFile(path, flags|syscall.O_NONBLOCK, perm)
+	f, stat, err := openNoWait(fsys.Fs, path, flags, perm)
 	if err != nil {
 		return nil, err
-	}
-
-	stat, err := f.Stat()
-	if err != nil {
-		_ = f.Close()
-		return nil, err
-	}
-
-	// named pipes, devices and sockets are not served
-	if !stat.Mode().IsRegular() && !stat.IsDir() {
-		_ = f.Close()
-		return nil, &fs.PathError{Op: "open", Path: path, Err: syscall.EINVAL}
 	}
 
 	// do not try wrappers if modifications enabled or it is a directory
